@@ -517,6 +517,10 @@ def comp_psum_unfold(s, c, q):
 def seq_concat(a, b):
     if isinstance(a, (tuple, list)) and isinstance(b, (tuple, list)):
         return tuple(a) + tuple(b)
+    if hasattr(a, "fold_concat") and isinstance(b, (tuple, list)):
+        # a sequence known only through a fold of its elements (contract-side model, e.g. the running join of a
+        # list of canvases): appending concrete items steps the fold
+        return a.fold_concat(b)
     if isinstance(b, (tuple, list)) and not b:
         return a
     if isinstance(a, (tuple, list)) and not a:
@@ -578,6 +582,8 @@ def seq_slice1(s, lo, hi):
         r.cpsum[c] = lambda k, f=f: f(lo + k) - f(lo)
     if s.expand is not None and 1 in s.cpsum:
         r.expand = lambda p: s.expand(s.cpsum[1](lo) + p)
+    if isinstance(s.length, int):
+        r.max_len = s.length  # a concrete bound on the symbolic length (used to unfold definitions eagerly)
     return r
 
 
